@@ -18,6 +18,7 @@ META = {
     "trusted": "CrossHair/z3; MemVFS stands for the OS (stat/listdir/open answers); fault kinds are stat errnos, special-file modes and rejected names.",
     "explanation": "Fault enumeration with symbolic (position, kind) pairs through the real directory handlers over an in-memory VFS.",
     "assumptions": [
+        "kinds 11-13: a regular file whose open() fails although its stat succeeded (ENOENT: deleted in between; EACCES), and a healthy entry next to which a FIFO has the name of its .abstract sidecar (open() on a FIFO never returns: modelled as an exception nothing handles)",
         "an unservable entry is one whose stat fails (ENOENT/EACCES/ELOOP after listdir, e.g. dangling link or deleted file), a FIFO/socket, or a name the selector filter rejects ('..' inside the name); the first five kinds also with a dot-name (which the UMN handler opens as a link file; open() then fails with the same errno, ENXIO for special files)",
         "directory pool: up to 4 children (text file, sub-directory, HTML file, text file); other handler lists than the shipped default are outside this obligation",
     ],
@@ -25,7 +26,8 @@ META = {
 
 NAMES = ["a.txt", "b", "c.html", "d.txt"]
 FAULTS = ["stat-ENOENT", "stat-EACCES", "stat-ELOOP", "fifo", "socket", "dotdot-name",
-          "dot-named stat-ENOENT", "dot-named stat-EACCES", "dot-named stat-ELOOP", "dot-named fifo", "dot-named socket"]
+          "dot-named stat-ENOENT", "dot-named stat-EACCES", "dot-named stat-ELOOP", "dot-named fifo", "dot-named socket",
+          "open-ENOENT-after-stat", "open-EACCES", "fifo-sidecar"]
 NF = len(FAULTS)
 # names for the unservable entry: they sit on handler-selection predicates (extensions the handlers
 # look at) or contain characters that matter to message formatting
@@ -54,7 +56,25 @@ def _build(n, faults, fname=None):
                 kind = fk
         if fname is not None and faults and faults[0][0] == idx:
             name = fname
-        if kind >= 6:
+        if kind == 11 or kind == 12:
+            # stat succeeds, open does not: deleted between inspection steps, or unreadable
+            n0 = _healthy_node(name)
+            if isinstance(n0, mv.File):
+                n0.open_err = errno.ENOENT if kind == 11 else errno.EACCES
+            else:
+                healthy.append("/d/" + name)
+            nodes["/d/" + name] = n0
+            listed.append(name)
+            continue
+        if kind == 13:
+            # the entry itself is fine; a FIFO sits where its .abstract sidecar would be
+            nodes["/d/" + name] = _healthy_node(name)
+            nodes["/d/" + name + ".abstract"] = mv.Special(mv.S_FIFO)
+            healthy.append("/d/" + name)
+            listed.append(name)
+            listed.append(name + ".abstract")
+            continue
+        if 6 <= kind <= 10:
             # a dot-named unservable entry (an editor's `.#name` lock link, a socket `.s`): the UMN handler reads dot-files as link files
             name = "." + name
             kind -= 6
@@ -172,10 +192,10 @@ def obligations(tier, seed):
                 ))
     for umn in (False, True):
         obs.append(Ob(id="C12.3-names[%s]" % ("UMN" if umn else "Dir"), body="harness.C12:body_prepare", sig="umn: bool, n: int, i: int, f: int, j: int, g: int, nm: int",
-                      pre=["umn == %s" % umn, "n == 3", "0 <= i < 3", "0 <= f < %d" % NF, "j == -1", "g == 0", "1 <= nm < %d" % len(FNAMES)], timeout=300 if tier == "quick" else 900,
+                      pre=["umn == %s" % umn, "n == 3", "0 <= i < 3", "0 <= f <= 10", "j == -1", "g == 0", "1 <= nm < %d" % len(FNAMES)], timeout=300 if tier == "quick" else 900,
                       desc="real %s.prepare: one unservable entry at a symbolic position, of symbolic kind, carrying a symbolic one of the names %r (extensions the handlers key on, format characters): the listing succeeds with every healthy child"
                            % ("UMNDirHandler" if umn else "DirHandler", FNAMES[1:]),
-                      bounds="3 positions x %d fault kinds x %d names (symbolic)" % (NF, len(FNAMES) - 1), functions=["handlers.*.canhandlerequest (all handlers of the list, on an entry whose stat failed)", "GopherExceptions.FileNotFound", "DirHandler.prep_entries"]))
+                      bounds="3 positions x 11 fault kinds (those that make the entry itself unservable) x %d names (symbolic)" % (len(FNAMES) - 1), functions=["handlers.*.canhandlerequest (all handlers of the list, on an entry whose stat failed)", "GopherExceptions.FileNotFound", "DirHandler.prep_entries"]))
     obs.append(Ob(id="C12.3b-names-protocols", body="harness.C12:body_protocol", sig="p: int, i: int, f: int, nm: int",
                   pre=["0 <= p <= 6", "i == 1", "f == 0 or f == 3 or f == 5", "1 <= nm < %d" % len(FNAMES)], timeout=300,
                   desc="each protocol's real handle() with one unservable entry carrying a symbolic one of the special names: success status and every healthy name",
